@@ -43,6 +43,8 @@ func (st Stim) coq() string {
 		return "SBreak"
 	case "adj":
 		return fmt.Sprintf("SAdj %s %s", cw.Z(st.A), cw.Z(st.B))
+	case "sib":
+		return fmt.Sprintf("SSib %s", cw.Z(st.A))
 	case "batch":
 		subs := make([]string, len(st.Sub))
 		for i, x := range st.Sub {
@@ -81,6 +83,8 @@ func short(st Stim) string {
 		return fmt.Sprintf("batch(adjust of %d held: %s)", st.A, strings.Join(subs, " "))
 	case "esub", "stop", "break":
 		return st.Op
+	case "sib":
+		return fmt.Sprintf("sibling.resize(%d)", st.A)
 	case "deq", "erecv", "resize":
 		return fmt.Sprintf("%s(%d)", st.Op, st.A)
 	}
@@ -141,7 +145,7 @@ func (g *world) emit(s *sess, gen string) {
 	coq := fmt.Sprintf("WQOpts %d %s %s", runtime.NumCPU(), cw.L(os_), cw.L(parts))
 	key := fmt.Sprintf("NewQueue(%s) %s", strings.Join(on, ","), strings.Join(sh, " "))
 	g.w.Add(cw.Case{Coq: coq, Key: key, Tags: tags, Trivial: trivial,
-		Desc: map[string]any{"W": s.W, "L": s.L, "opts": opts, "new_queue": "NewQueue(" + strings.Join(on, ", ") + ")", "num_cpu": runtime.NumCPU(),
+		Desc: map[string]any{"W": s.W, "L": s.L, "opts": opts, "sibling": s.sib != nil || s.hadSib, "new_queue": "NewQueue(" + strings.Join(on, ", ") + ")", "num_cpu": runtime.NumCPU(),
 			"script": strings.Join(sh, " "), "stimuli": stims, "steps": s.steps, "generator": gen}})
 }
 
@@ -267,6 +271,7 @@ type profile struct {
 	wEnq, wFin, wAdj, wDeq, wSetp, wEsub, wErecv, wResize int
 	pAdjItem, pErr                                        float64
 	burst                                                 bool // fill the queue first
+	wSib                                                  int  // > 0: a sibling queue shares the option values; weight of resizing IT
 	extreme                                               bool // priorities / adjust values / SetPriority arguments from the int extremes
 }
 
@@ -289,7 +294,7 @@ func (g *world) runRandom(p profile, gen string) {
 	if r.Intn(2) == 0 {
 		opts = []Opt{{"l", L0}, {"w", W0}} // the configuration is the same whichever option comes first
 	}
-	s := newSessOpts(opts)
+	s := newSessShared(opts, p.wSib > 0)
 	nItems := 0
 	nsub := 0
 	nextErr := 0
@@ -316,7 +321,7 @@ func (g *world) runRandom(p profile, gen string) {
 				cs = append(cs, cand{p.wDeq, "deq"}, cand{p.wSetp, "setp"})
 			}
 		}
-		cs = append(cs, cand{p.wEsub, "esub"}, cand{p.wResize, "resize"})
+		cs = append(cs, cand{p.wEsub, "esub"}, cand{p.wResize, "resize"}, cand{p.wSib, "sib"})
 		if nsub > 0 {
 			cs = append(cs, cand{p.wErecv, "erecv"})
 		}
@@ -364,6 +369,8 @@ func (g *world) runRandom(p profile, gen string) {
 			s.do(Stim{Op: "erecv", A: r.Intn(nsub)})
 		case "resize":
 			s.do(Stim{Op: "resize", A: 1 + r.Intn(6)})
+		case "sib":
+			s.do(Stim{Op: "sib", A: 1 + r.Intn(12)})
 		}
 		if s.unstable || s.hung {
 			break
@@ -390,6 +397,7 @@ func profileFor(prop, tier string) profile {
 		// work functions that return errors, without subscribers (variant 0) and with subscribers (variant 1): a worker
 		// must hand its token back after a failing item too
 		p.wResize, p.wAdj, p.wDeq, p.wSetp, p.wEsub, p.wErecv, p.pErr = 3, 0, 0, 0, 0, 0, 0.4
+		p.wSib = 3
 		p.Ws = []int{1, 2, 3, 4}
 	case "C14":
 		p.wEsub, p.wErecv, p.pErr, p.wAdj, p.wDeq, p.wSetp, p.wResize = 3, 8, 0.6, 0, 0, 0, 0
@@ -444,33 +452,42 @@ type cfgScript struct {
 	opts   []Opt
 	resize int // > 0: ResizeQueueLength(resize) right after construction
 	name   string
+	sib    int // > 0: a sibling queue is built from the same option values and ITS length is resized to sib
 }
 
 func configScripts() []cfgScript {
 	w := func(n int) Opt { return Opt{"w", n} }
 	l := func(n int) Opt { return Opt{"l", n} }
 	return []cfgScript{
-		{[]Opt{w(2), l(1)}, 0, "workers-then-length"},
-		{[]Opt{l(1), w(2)}, 0, "length-then-workers"},
-		{[]Opt{l(20), w(2)}, 0, "long-length-then-workers"},
-		{[]Opt{w(3), l(7)}, 0, "workers-then-length"},
-		{[]Opt{l(7), w(3)}, 0, "length-then-workers"},
-		{[]Opt{w(2)}, 0, "workers-only-default-length"},
-		{[]Opt{l(1)}, 0, "length-only-default-workers"},
-		{[]Opt{}, 0, "all-defaults"},
-		{[]Opt{w(1), l(3), w(3)}, 0, "repeated-workers"},
-		{[]Opt{l(5), w(2), l(1)}, 0, "repeated-length"},
-		{[]Opt{l(3), w(1), l(2), w(2)}, 0, "repeated-both"},
-		{[]Opt{l(1), w(2)}, 4, "resize-after-construction"},
-		{[]Opt{w(2), l(6)}, 1, "resize-after-construction"},
-		{[]Opt{w(2)}, 3, "resize-after-construction-default-length"},
+		{[]Opt{w(2), l(1)}, 0, "workers-then-length", 0},
+		{[]Opt{l(1), w(2)}, 0, "length-then-workers", 0},
+		{[]Opt{l(20), w(2)}, 0, "long-length-then-workers", 0},
+		{[]Opt{w(3), l(7)}, 0, "workers-then-length", 0},
+		{[]Opt{l(7), w(3)}, 0, "length-then-workers", 0},
+		{[]Opt{w(2)}, 0, "workers-only-default-length", 0},
+		{[]Opt{l(1)}, 0, "length-only-default-workers", 0},
+		{[]Opt{}, 0, "all-defaults", 0},
+		{[]Opt{w(1), l(3), w(3)}, 0, "repeated-workers", 0},
+		{[]Opt{l(5), w(2), l(1)}, 0, "repeated-length", 0},
+		{[]Opt{l(3), w(1), l(2), w(2)}, 0, "repeated-both", 0},
+		{[]Opt{l(1), w(2)}, 4, "resize-after-construction", 0},
+		{[]Opt{w(2), l(6)}, 1, "resize-after-construction", 0},
+		{[]Opt{w(2)}, 3, "resize-after-construction-default-length", 0},
+		// one option value configures two queues: resizing the sibling must not move this queue's threshold
+		{[]Opt{w(2), l(1)}, 0, "shared-options-sibling-grown", 20},
+		{[]Opt{l(6), w(2)}, 0, "shared-options-sibling-shrunk", 1},
+		{[]Opt{l(2), w(1)}, 4, "shared-options-both-resized", 9},
+		{[]Opt{w(2)}, 0, "shared-options-default-length-sibling-resized", 3},
 	}
 }
 
 func (g *world) runConfig(c cfgScript) {
-	s := newSessOpts(c.opts)
+	s := newSessShared(c.opts, c.sib > 0)
 	if c.resize > 0 {
 		s.do(Stim{Op: "resize", A: c.resize})
+	}
+	if c.sib > 0 {
+		s.do(Stim{Op: "sib", A: c.sib})
 	}
 	n := 0
 	for n < 130 && s.blockedProducers() < 2 && !s.hung && !s.unstable {
@@ -610,6 +627,10 @@ func corpus() []script {
 		{2, 2, []Stim{enq(1, 0), enq(1, 1), enq(1, 2), enq(1, 3), enq(1, 4), enq(1, 5), deq(4), deq(5), fin(0), fin(1), fin(2), fin(3), enq(1, 6), enq(1, 7), enq(1, 8)}, "corpus-dequeue-drain-enqueue"},
 		// Dequeue frees queue length: after two dequeues two more arrivals fit without the full-queue branch
 		{1, 2, []Stim{enq(1, 0), enq(1, 1), enq(1, 2), enq(1, 3), deq(2), deq(3), enq(1, 4), enq(1, 5), enq(1, 6), enq(1, 7)}, "corpus-dequeue-frees-length"},
+		// several Dequeue calls on a heap whose array layout is not the sorted one (1 5 2 6 7 3): each removes exactly its
+		// target, every other accepted item still runs
+		{1, 8, []Stim{enq(0, 0), enq(0, 1), enq(1, 2), enq(5, 3), enq(2, 4), enq(6, 5), enq(7, 6), enq(3, 7), deq(5), deq(4), deq(6), fin(0), fin(1)}, "corpus-two-dequeues"},
+		{2, 8, []Stim{enq(0, 0), enq(0, 1), enq(0, 2), enq(0, 3), enq(1, 4), enq(5, 5), enq(2, 6), enq(6, 7), enq(7, 8), enq(3, 9), setp(9, 0), deq(7), deq(6), fin(0), fin(1)}, "corpus-two-dequeues"},
 		// explicit priority 0 (the zero value) is a priority like any other
 		{1, 6, []Stim{enq(1, 0), enq(1, 1), enq(1, 2), enq(0, 3), enq(1, 4), enq(0, 5), fin(0), fin(1)}, "corpus-priority-zero"},
 		// far more workers than items (and than CPUs)
@@ -630,6 +651,7 @@ func corpus() []script {
 type childIn struct {
 	W, L    int
 	Opts    []Opt  `json:"opts,omitempty"`
+	NoDrain bool   `json:"no_drain,omitempty"` // the gated work is never released (nothing may finish after the shutdown: K5)
 	Stimuli []Stim `json:"stimuli"`
 }
 
@@ -667,7 +689,9 @@ func runChild(in, out string) {
 	for _, st := range ci.Stimuli {
 		s.do(st)
 	}
-	s.finishAll(200)
+	if !ci.NoDrain {
+		s.finishAll(200)
+	}
 	if s.unstable {
 		f.Write([]byte("{\"unstable\":true}\n"))
 	}
@@ -692,9 +716,13 @@ var panicRe = regexp.MustCompile(`(?m)^(panic: .*|fatal error: .*)$`)
 
 // spawn runs one script in a child process and returns the steps it completed plus a crash record (nil if it exited 0).
 func (g *world) spawn(self string, dir string, k int, W, L int, stims []Stim) ([]Step, *crash) {
+	return g.spawnND(self, dir, k, W, L, stims, false)
+}
+
+func (g *world) spawnND(self string, dir string, k int, W, L int, stims []Stim, noDrain bool) ([]Step, *crash) {
 	in := fmt.Sprintf("%s/child-%d.json", dir, k)
 	out := fmt.Sprintf("%s/child-%d.jsonl", dir, k)
-	b, _ := json.Marshal(childIn{W: W, L: L, Stimuli: stims})
+	b, _ := json.Marshal(childIn{W: W, L: L, Stimuli: stims, NoDrain: noDrain})
 	os.WriteFile(in, b, 0o644)
 	cmd := exec.Command(self, "-child", in, "-out", out)
 	var errb strings.Builder
@@ -875,6 +903,38 @@ func (g *world) runC19(tier, dir string) (map[string]any, []crash) {
 			}
 		}
 	}
+	// shutdown sequences: Stop then Break (escalation), Break then Stop, repeated Stop / Break - on an idle queue, with all
+	// workers executing, and with the worker channel full and items waiting.  The gated work is never released, so
+	// nothing finishes after the shutdown (the regime in which the unchanged code does not crash); every call must
+	// return (hang detector of the scripted harness), nothing waiting may start after Break, a later Enqueue returns.
+	nSeq := 0
+	for _, W := range []int{1, 2} {
+		for _, fill := range []int{0, W, 2 * W, 2*W + 1, 2*W + 2} {
+			for _, seq := range [][]string{{"stop", "break"}, {"break", "stop"}, {"stop", "stop"}, {"break", "break"}, {"stop", "break", "stop"}} {
+				stims := []Stim{}
+				for i := 0; i < fill; i++ {
+					stims = append(stims, Stim{Op: "enq", A: 1, B: i})
+				}
+				for _, op := range seq {
+					stims = append(stims, Stim{Op: op})
+				}
+				stims = append(stims, Stim{Op: "enq", A: 1, B: fill})
+				steps, c := g.spawnND(self, dir, k, W, 3, stims, true)
+				k++
+				nChildren++
+				nSeq++
+				tag := "no-crash"
+				if c != nil {
+					crashes = append(crashes, *c)
+					tag = "child-" + c.Kind
+				}
+				if len(steps) > 0 {
+					g.emitSteps(W, 3, steps, "shutdown-sequence-"+strings.Join(seq, "-"), []string{tag})
+				}
+			}
+		}
+	}
+	g.w.Extra["shutdown_sequences"] = nSeq
 	ntr, bfails, bcrashes := g.runBursts(self, dir, tier)
 	crashes = append(crashes, bcrashes...)
 	g.w.Extra["burst_failures"] = bfails
@@ -1116,6 +1176,7 @@ func main() {
 		var scs []struct {
 			W, L    int
 			Opts    []Opt  `json:"opts"`
+			Sibling bool   `json:"sibling"`
 			Stimuli []Stim `json:"stimuli"`
 		}
 		b, err := os.ReadFile(*rerun)
@@ -1131,7 +1192,7 @@ func main() {
 				if len(sc.Opts) == 0 {
 					sc.Opts = []Opt{{"w", sc.W}, {"l", sc.L}}
 				}
-				s := newSessOpts(sc.Opts)
+				s := newSessShared(sc.Opts, sc.Sibling)
 				for _, st := range sc.Stimuli {
 					s.do(st)
 				}
@@ -1240,6 +1301,12 @@ func main() {
 				// priorities, adjust values and SetPriority arguments at the ends of the int range
 				q.extreme = true
 				gen = "random-extreme-priorities"
+			}
+			if *prop == "C04" && i%3 == 1 {
+				// Dequeue-bearing scripts without errors/subscribers: every accepted item that is not dequeued must run
+				q.wDeq, q.wAdj, q.wSetp, q.pErr, q.wEsub, q.wErecv = 6, 2, 2, 0, 0, 0
+				q.Ls = []int{3, 6, 8}
+				gen = "random-dequeue"
 			}
 			if *prop == "C16" && i%2 == 1 {
 				// adjust functions that change value between Enqueue and the Dequeue/SetPriority call
